@@ -10,7 +10,7 @@ use crate::runner::{guard, Case, SubCheck};
 
 fn idempotent(ch: &mut Choices, case: &mut Case) -> Result<(), String> {
     let base_year = 2020;
-    let cfg = Cfg { max_rules: 5, base_year, dense: ch.chance(65), canonical_pct: ch.pick(&[85, 60, 100, 0]), max_day_offset: 30, ..Cfg::default() };
+    let cfg = Cfg { max_rules: 5, base_year, dense: ch.chance(65), canonical_pct: ch.pick(&[85, 60, 100, 0]), max_day_offset: 30, long_pct: 4, ..Cfg::default() };
     let g = gen_case(ch, &cfg)?;
     case.key = g.text.clone();
     label_expr(&g.ast, case);
@@ -74,7 +74,7 @@ pub fn property() -> Property {
             rule: "generated expression e (1-5 rules, 65 % dense): normalize(normalize(e)) == normalize(e); normalizing a clone on another thread, through OpeningHours::normalize and from a second parse of the same text gives the same result; the normal form satisfies the C06 print/reparse relation on 4 dates; non-trivial = the first pass changed the expression",
             f: idempotent,
             text_f: Some(idempotent_text),
-            cases_quick: 40_000,
+            cases_quick: 120_000,
             cases_thorough: 1_200_000,
             max_choices: 340,
         }],
